@@ -262,7 +262,69 @@ func (c *cluster) tplCrashPoint(rt *rapid.T) {
 	}
 }
 
+// tplDivergeSnap: a leader appends a long tail it cannot replicate, is cut off,
+// the others elect a new leader, commit fewer entries than that tail is long,
+// snapshot and compact; when the old leader comes back it has to be caught up by
+// a snapshot whose last index lies INSIDE its own divergent tail.
+func (c *cluster) tplDivergeSnap(rt *rapid.T) {
+	c.step(vAct{A: "free"})
+	c.step(vAct{A: "adv", T: 1500})
+	ldr := c.anyLeader()
+	flrs := c.followersOf(ldr)
+	if ldr == 0 || len(flrs) < 2 {
+		return
+	}
+	c.stats.class("tpl-divergesnap")
+	c.step(vAct{A: "gate"})
+	tail := rapid.IntRange(25, 60).Draw(rt, "tail")
+	for tail > 0 && !c.failed() {
+		b := tail
+		if b > 12 {
+			b = 12
+		}
+		tail -= b
+		c.step(vAct{A: "upd", N: ldr, K: b, T: int64(rapid.IntRange(20, 120).Draw(rt, "tailpad"))})
+	}
+	c.step(vAct{A: "isolate", N: ldr, B: true})
+	c.step(vAct{A: "free"})
+	c.step(vAct{A: "adv", T: 4000})
+	nl := c.anyLeader()
+	for i := 0; i < 3 && (nl == 0 || nl == ldr) && !c.failed(); i++ {
+		c.step(vAct{A: "adv", T: 1500})
+		nl = 0
+		for _, id := range c.leaders() {
+			if id != ldr {
+				nl = id
+			}
+		}
+	}
+	if nl == 0 || nl == ldr {
+		c.step(vAct{A: "heal"})
+		return
+	}
+	c.burst(rt, nl, rapid.IntRange(12, 30).Draw(rt, "newEntries"), rapid.IntRange(80, 200).Draw(rt, "newpad"))
+	c.step(vAct{A: "snap", N: nl, K: 0})
+	c.step(vAct{A: "adv", T: 1500})
+	if rapid.Bool().Draw(rt, "snapFollowerToo") {
+		for _, f := range flrs {
+			if f != nl {
+				c.step(vAct{A: "snap", N: f, K: 0})
+				break
+			}
+		}
+	}
+	c.step(vAct{A: "heal"})
+	for i := 0; i < 4 && !c.failed(); i++ {
+		c.step(vAct{A: "adv", T: 1200})
+	}
+	if l := c.anyLeader(); l != 0 {
+		c.burst(rt, l, rapid.IntRange(1, 6).Draw(rt, "after"), 10)
+		c.step(vAct{A: "adv", T: 1500})
+	}
+}
+
 var templates = map[string]func(c *cluster, rt *rapid.T){
+	"divergesnap":  (*cluster).tplDivergeSnap,
 	"lagsnap":      (*cluster).tplLagSnap,
 	"staleinstall": (*cluster).tplStaleInstall,
 	"crashpoint":   (*cluster).tplCrashPoint,
